@@ -1,7 +1,8 @@
 package main
 
-// level 3 of driver "plugins": an in-process frps (hx.StartServer) whose plugin manager holds real
-// HTTP plugins pointing at the stub servers, and a scripted peer that performs ONE gated
+// level 3 of driver "plugins": an in-process frps started from a configuration file (cfgsrv.go: loader,
+// Complete, validation, NewService) whose httpPlugins entries -- names arbitrary, duplicates and empty
+// names included -- point at the stub servers, and a scripted peer that performs ONE gated
 // operation and reports what it observes:
 //
 //   Login        LoginResp: "ok:<RunID>" / "fail"           (a plugin may rewrite RunID and the key)
@@ -19,7 +20,6 @@ import (
 	"sort"
 	"time"
 
-	v1 "github.com/fatedier/frp/pkg/config/v1"
 	"github.com/fatedier/frp/pkg/msg"
 	plugin "github.com/fatedier/frp/pkg/plugin/server"
 	netpkg "github.com/fatedier/frp/pkg/util/net"
@@ -29,18 +29,7 @@ import (
 
 const sysAddr = "127.0.15.1"
 
-var sysPortCounter = 0
-
-func nextPort() int {
-	for i := 0; i < 90; i++ {
-		p := 21510 + sysPortCounter%89
-		sysPortCounter++
-		if hx.TCPBindable(sysAddr, p) {
-			return p
-		}
-	}
-	return 21599
-}
+func nextPort() int { return hx.FreePort(sysAddr) }
 
 type sysPeer struct {
 	conn net.Conn
@@ -51,7 +40,7 @@ type sysPeer struct {
 	runID string
 }
 
-func sysLogin(s *hx.Server, lm *msg.Login) (p *sysPeer, resp *msg.LoginResp, local string, err error) {
+func sysLogin(s *sysServer, lm *msg.Login) (p *sysPeer, resp *msg.LoginResp, local string, err error) {
 	conn, err := s.Dial()
 	if err != nil {
 		return nil, nil, "", err
@@ -136,6 +125,11 @@ func runSys(cfg *runCfg, g *gen, n int) (cases []string, dist map[string]int, fa
 			}
 		}
 		np := g.intn(4)
+		// two NewUserConn cases per run have a plugin that answers after userConnTimeout
+		slowCase := op == "NewUserConn" && (k/len(gating))%12 == 1
+		if slowCase && np == 0 {
+			np = 1
+		}
 		ids := make([]int, np)
 		opsets := make([][]string, np)
 		scripts := make([]*script, np)
@@ -220,23 +214,50 @@ func runSys(cfg *runCfg, g *gen, n int) (cases []string, dist map[string]int, fa
 			}
 		}
 		var scCoq []string
-		var plugins []v1.HTTPPluginOptions
+		var entries []cfgEntry
+		var esCoq []string
 		for i := 0; i < np; i++ {
 			ids[i] = i + 1
-			opsets[i] = g.opSubset(op)
+			// the file goes through validation: only documented operation strings
+			var valid []string
+			for _, o := range g.opSubset(op) {
+				for _, a := range allOps {
+					if o == a {
+						valid = append(valid, o)
+					}
+				}
+			}
+			opsets[i] = valid
 			scripts[i] = g.scriptWith(true, mk, false)
+			if op == "NewUserConn" && slowCase && i == 0 {
+				// an answer that comes later than userConnTimeout (1 s) -- and refuses: the handler has to wait for it
+				scripts[i] = &script{http: true, status: 200, reject: true, reason: "slow no", body: `{"reject":true,"reject_reason":"slow no"}`,
+					bodyCoq: "BParsed true " + coqHxS("slow no") + " false CFAbsent", slowMs: 1500}
+				if g.chance(0.5) {
+					scripts[i] = &script{http: true, status: 503, isErr: true, errKind: "ENon200", body: `{"reject":false,"unchange":true}`,
+						bodyCoq: "BParsed false [] true CFAbsent", slowMs: 1500}
+				}
+				valid = append(valid, "NewUserConn")
+				opsets[i] = valid
+			}
 			scCoq = append(scCoq, fmt.Sprintf("(%d, %s)", ids[i], scripts[i].coq()))
 			stubs[i].mu.Lock()
 			stubs[i].sc, stubs[i].onlyOp, stubs[i].notes = scripts[i], op, nil
 			stubs[i].mu.Unlock()
-			plugins = append(plugins, v1.HTTPPluginOptions{Name: fmt.Sprintf("p%d", ids[i]), Addr: "http://" + stubs[i].addr, Path: "/handler", Ops: opsets[i]})
+			name, omit := g.cfgName()
+			entries = append(entries, cfgEntry{name: name, omitName: omit, addr: "http://" + stubs[i].addr, ops: valid})
+			var os []string
+			for _, o := range valid {
+				os = append(os, coqStr(o))
+			}
+			esCoq = append(esCoq, fmt.Sprintf("(%s, %s)", coqStr(name), coqList(os)))
 		}
-		srv, e := hx.StartServer(sysAddr, func(c *v1.ServerConfig) {
-			c.HTTPPlugins = plugins
-			c.Auth.AdditionalScopes = []v1.AuthScope{v1.AuthScopeHeartBeats, v1.AuthScopeNewWorkConns}
-		})
+		srv, e := startFromConfigFile(sysAddr, entries, true, g.chance(0.35))
 		if e != nil {
 			return nil, nil, nil, e
+		}
+		if len(srv.Cfg.HTTPPlugins) != np {
+			dist["sys-config-entries-lost-before-start"]++
 		}
 		rec.take()
 		observed := "fail"
@@ -389,7 +410,7 @@ func runSys(cfg *runCfg, g *gen, n int) (cases []string, dist map[string]int, fa
 				res := make(chan string, 2)
 				go func() {
 					for {
-						m, e := peer.recv(2 * time.Second)
+						m, e := peer.recv(4 * time.Second)
 						if e != nil {
 							res <- "noresp"
 							return
@@ -401,7 +422,7 @@ func runSys(cfg *runCfg, g *gen, n int) (cases []string, dist map[string]int, fa
 					}
 				}()
 				go func() {
-					if hx.ConnClosedWithin(uc, 2*time.Second) {
+					if hx.ConnClosedWithin(uc, 4*time.Second) {
 						res <- "fail"
 					}
 				}()
@@ -422,10 +443,13 @@ func runSys(cfg *runCfg, g *gen, n int) (cases []string, dist map[string]int, fa
 		for _, id := range effOrder {
 			eff = append(eff, fmt.Sprintf("(%s, %s)", coqHx([]byte(id)), coqHxS(effects[id])))
 		}
-		txt := fmt.Sprintf("CSys %d %s %s %s %s %s %s %s", opi, coqPlugins(ids, opsets), coqList(scCoq),
+		txt := fmt.Sprintf("CSys %d %s %s %s %s %s %s %s", opi, coqList(esCoq), coqList(scCoq),
 			coqHx(cid(mustJSON(zeroContent(op)))), coqHx(cid(mustJSON(c0))), coqList(eff), coqHxS(observed), coqSeen(seen))
 		cases = append(cases, txt)
 		dist["sys:"+op]++
+		if slowCase {
+			dist["sys-slow-plugin-answer"]++
+		}
 		dist["sys-observed:"+observed[:2]]++
 		dist[fmt.Sprintf("sys-consulted:%d", len(seen))]++
 	}
@@ -449,16 +473,24 @@ func runSys(cfg *runCfg, g *gen, n int) (cases []string, dist map[string]int, fa
 		// plugin 1 is registered for CloseProxy; plugin 2 too in half of the cases, placed FIRST and
 		// failing (the stub answers 599 when unscripted... it answers accept here); plugin 3 is not registered
 		two := g.chance(0.5)
-		var plugins []v1.HTTPPluginOptions
-		if two {
-			plugins = append(plugins, v1.HTTPPluginOptions{Name: "p2", Addr: "http://" + stubs[1].addr, Path: "/handler", Ops: []string{"CloseProxy", "Ping"}})
+		// all entries carry the SAME name (empty, omitted or "dup"): the name is not a key
+		nm, om := "", false
+		switch g.intn(3) {
+		case 0:
+			om = true
+		case 1:
+			nm = "dup"
 		}
-		plugins = append(plugins, v1.HTTPPluginOptions{Name: "p1", Addr: "http://" + stubs[0].addr, Path: "/handler", Ops: []string{"NewProxy", "CloseProxy"}})
-		plugins = append(plugins, v1.HTTPPluginOptions{Name: "p3", Addr: "http://" + stubs[2].addr, Path: "/handler", Ops: []string{"Login"}})
+		var entries []cfgEntry
+		if two {
+			entries = append(entries, cfgEntry{name: nm, omitName: om, addr: "http://" + stubs[1].addr, ops: []string{"CloseProxy", "Ping"}})
+		}
+		entries = append(entries, cfgEntry{name: nm, omitName: om, addr: "http://" + stubs[0].addr, ops: []string{"NewProxy", "CloseProxy"}})
+		entries = append(entries, cfgEntry{name: nm, omitName: om, addr: "http://" + stubs[2].addr, ops: []string{"Login"}})
 		stubs[2].mu.Lock()
 		stubs[2].sc, stubs[2].onlyOp, stubs[2].notes = nil, "none", nil
 		stubs[2].mu.Unlock()
-		srv, e := hx.StartServer(sysAddr, func(c *v1.ServerConfig) { c.HTTPPlugins = plugins })
+		srv, e := startFromConfigFile(sysAddr, entries, false, g.chance(0.35))
 		if e != nil {
 			return nil, nil, nil, e
 		}
